@@ -10,7 +10,7 @@ class SmoothProgUnit(WeaverUnit):
 
 class P(Property):
     id = "C16"
-    gen_targets = ["Funfit", "Defaults"]
+    gen_targets = ["Funfit", "Defaults", "Kernels"]
     assumptions = ["FITPACK honouring the smoothing condition s is an oracle contract (spot-checked by the oracle, runs where it warns of non-convergence are discarded)"]
 
     def units(self, tier):
